@@ -6,10 +6,13 @@
 set -u
 HERE="$(cd "$(dirname "$0")" && pwd)"
 only="${1:-}"
-if [ -n "$(git -C /repo status --porcelain --untracked-files=no)" ]; then
-  echo "refusing: /repo has uncommitted changes"; exit 2
+# the tree the patches are applied to: /repo, or a private copy of it
+# (TZSIM_REPO, which ./check honours too) when /repo itself is in use
+REPO="${TZSIM_REPO:-/repo}"
+if [ -n "$(git -C "$REPO" status --porcelain --untracked-files=no)" ]; then
+  echo "refusing: $REPO has uncommitted changes"; exit 2
 fi
-trap 'git -C /repo checkout -- . 2>/dev/null' EXIT
+trap 'git -C "$REPO" checkout -- . 2>/dev/null' EXIT
 out="$HERE/evidence/selftest-sensitivity.json"
 rows=()
 shopt -s nullglob
@@ -21,7 +24,7 @@ for patch in "${patches[@]}"; do
     *) name="mutants/$(basename "$patch" .diff)"; prop=$(grep -h '^property=' "${patch%.diff}.meta" | cut -d= -f2) ;;
   esac
   [ -n "$only" ] && [[ "$name" != *"$only"* ]] && continue
-  if ! git -C /repo apply "$patch" 2>/dev/null && ! { git -C /repo apply -3 "$patch" 2>/dev/null && git -C /repo reset -q; }; then
+  if ! git -C "$REPO" apply "$patch" 2>/dev/null && ! { git -C "$REPO" apply -3 "$patch" 2>/dev/null && git -C "$REPO" reset -q; }; then
     echo "$name: patch does not apply"; rows+=("{\"patch\":\"$name\",\"property\":\"$prop\",\"applies\":false}"); continue
   fi
   res=""
@@ -34,7 +37,7 @@ for patch in "${patches[@]}"; do
     [ $rc -eq 1 ] && caught="$caught $p"
     [ $rc -ge 2 ] && caught="$caught $p:HARNESS-ERROR($rc)"
   done
-  git -C /repo checkout -- .
+  git -C "$REPO" checkout -- .
   rm -f "$HERE"/replays/*.json
   echo "$name (breaks $prop): caught by:${caught:- NONE}"
   rows+=("{\"patch\":\"$name\",\"property\":\"$prop\",\"applies\":true,\"caught_by\":\"${caught# }\",\"checks\":{${res%,}}}")
